@@ -36,6 +36,14 @@ type Exec struct {
 	lastKind string
 }
 
+// Current returns the id of the running thread (valid while a body runs).
+func (e *Exec) Current() int {
+	if e.cur == nil {
+		return -1
+	}
+	return e.cur.id
+}
+
 // Yield is a scheduling point; it must be called by the running thread.
 func (e *Exec) Yield(kind string) {
 	t := e.cur
